@@ -106,9 +106,7 @@ static void check_case(vg::Src& s, vh::Ctx& c)
         check_tables(c, b.graph->state(), fc.m.n, "update#" + std::to_string(u + 1));
         // snapshots are graphs too
         for (auto& key : b.graph->graph_snapshot_keys())
-        {
-            (void) key;
-        }
+            check_tables(c, b.graph->graph_snapshot(key).state(), fc.m.n, "update#" + std::to_string(u + 1) + " snapshot '" + key + "'");
     }
     c.nontrivial = (pi.has_carve || pi.final_multi) && depression;
     if (pi.has_carve)
